@@ -2,6 +2,7 @@
    Pinned statements only; proofs are in Proofs/RollbackP.v. *)
 From ToughV Require Export Model.Base Model.Sig Model.Deleg Model.Client.
 From ToughV Require Import Proofs.ClientP Proofs.RollbackP.
+From ToughV Require Export Proofs.ClientP Proofs.DelegLoadP Proofs.LivenessP Proofs.LockoutP.
 Export RollbackP.
 
 (* when the root walk ends with a root whose timestamp or snapshot keys differ from those of the
@@ -39,3 +40,25 @@ Print Assumptions C14_rotated_iff.
 Theorem C14_unrotated_keeps_protecting : rollback_online_stmt fixed.
 Proof. exact rollback_online_fixed. Qed.
 Print Assumptions C14_unrotated_keeps_protecting.
+
+(* Recovery, end to end and after any history: once a newer root has replaced the timestamp and
+   snapshot keys so that nothing the datastore ever held or earlier cycles were served verifies under
+   it for those roles, an uninterrupted cycle succeeds against every valid repository under that root -
+   whatever its timestamp and snapshot versions, in particular versions lower than the fast-forwarded
+   ones (targets remain protected by their own, unchanged authorisation). *)
+Theorem C14_recovery : forall h s0 c r ts sn t0 t,
+  cy_fault c = None ->
+  (forall tm, known_time s0 h tm -> (tm <= cy_now c)%Z) ->
+  final_root fixed c = Some r ->
+  (c_enforce (cy_cfg c) = true -> (cy_now c <= r_expires r)%Z) ->
+  ts_accepted (cy_cfg c) r (cy_srv c) (cy_now c) store0 ts ->
+  snap_accepted (cy_cfg c) r ts (cy_srv c) (cy_now c) store0 sn ->
+  tgt_accepted (cy_cfg c) r sn (cy_srv c) (cy_now c) store0 t0 ->
+  tgt_tree (cy_cfg c) (cy_srv c) sn (r_cs r) t0 t -> validate t = true ->
+  (forall x, known_ts s0 h x -> root_verify r 3 (ts_sigs x) = false) ->
+  (forall x, known_snap s0 h x -> root_verify r 1 (sn_sigs x) = false) ->
+  (forall x, known_tgt s0 h x -> root_verify r 2 (tg_sigs x) = true -> tg_version x <= tg_version t0) ->
+  exists w', run_cycle fixed c (end_store fixed h s0)
+             = (Ok {| rp_root := r; rp_ts := ts; rp_snap := sn; rp_targets := t |}, w').
+Proof. exact recovery_after_rotation. Qed.
+Print Assumptions C14_recovery.
